@@ -1476,12 +1476,14 @@ def where(c, x=None, y=None):
 def nonzero(a):
     a = asarray(a)
     if a.ndim != 1:
-        if a.ndim == 2 and a.n is None:
+        if a.ndim == 2:
             r, c = a.shape_cap
             ri = SArr.new([i for i in range(r) for _ in range(c)], (r * c,), None, int64)
             ci = SArr.new([j for _ in range(r) for j in range(c)], (r * c,), None, int64)
             m = SArr(a.buf, a.offs, (r * c,), None, a.dtype)
             m = m if m.dtype.kind == "b" else (m != 0)
+            if a.n is not None:      # rows beyond the valid length do not count
+                m = SArr.new([and_(v, (k // c) < a.n) for k, v in enumerate(m.flat_list())], (r * c,), None, bool_)
             return (_compress(ri, m), _compress(ci, m))
         raise Unsupported("nonzero nd")
     mask = a if a.dtype.kind == "b" else (a != 0)
